@@ -298,6 +298,9 @@ def annotate_fn(fn_text, spec="", attrs="", loops=None, body_start="", rname="r"
             hdr = hdr2
         new = hdr.rstrip() + "\n" + ann.get("header", "") + "\n{" + ("\n" + ann["body_start"] if ann.get("body_start") else "")
         before = (ann["before"] + "\n") if ann.get("before") else ""
+        if ann.get("after"):
+            close = match_brace(body, brace)
+            body = body[:close + 1] + "\n" + ann["after"] + body[close + 1:]
         body = body[:start] + before + new + body[brace + 1:]
     if body_start:
         body = "{\n" + body_start + body[1:]
